@@ -14,25 +14,34 @@ Member(obj, prop, rv)    == [k |-> "member", obj |-> obj, prop |-> prop, rv |-> 
 Lit(v)                   == [k |-> "lit", v |-> v]
 Undefined                == [k |-> "undefined"]
 ObjLit(es)               == [k |-> "objlit", es |-> es]       \* es: << <<key, Expr>> >>
+ObjLitC(ces)             == [k |-> "objlitc", ces |-> ces]    \* computed keys { [keyexpr]: value }: ces: << <<keyexpr, key-as-string, Expr>> >>
 ArrLit(xs)               == [k |-> "arrlit", xs |-> xs]
 Arrow(body)              == [k |-> "arrow", body |-> body]    \* () => body
 FnExpr(body)             == [k |-> "fnexpr", body |-> body]   \* function () { return body }
 Wrap(form, e)            == [k |-> "wrap", form |-> form, e |-> e]
    \* value-preserving syntactic categories: "paren" (e), "cond" (true ? e : 0), "seq" (0, e),
    \* "or" (e || 0, for truthy e), "nullish" (e ?? 0), "tpl" (`${e}`, for strings)
+   \* TypeScript-only (modules rendered as tsx): "tsnonnull" (e!), "tsas" (e as any) - not transparent for the child-shape rules
 
-RECURSIVE Eval(_), EvalEntries(_, _, _), EvalItems(_)
+RECURSIVE Eval(_), EvalEntries(_, _, _), EvalCEntries(_, _, _), EvalItems(_)
 Eval(e) ==
   CASE e.k \in {"ident", "call", "member", "index"} -> e.rv
     [] e.k = "lit"       -> e.v
     [] e.k = "undefined" -> Undef
     [] e.k = "objlit"    -> Obj(EvalEntries(e.es, 1, <<>>))
+    [] e.k = "objlitc"   -> Obj(EvalCEntries(e.ces, 1, <<>>))
     [] e.k = "arrlit"    -> Arr(EvalItems(e.xs))
     [] e.k \in {"arrow", "fnexpr"} -> AnonFn
     [] e.k = "wrap"      -> Eval(e.e)
 EvalEntries(es, i, acc) ==
   IF i > Len(es) THEN acc ELSE EvalEntries(es, i + 1, ObjSet(acc, es[i][1], Eval(es[i][2])))
+EvalCEntries(ces, i, acc) ==
+  IF i > Len(ces) THEN acc ELSE EvalCEntries(ces, i + 1, ObjSet(acc, ces[i][2], Eval(ces[i][3])))
 EvalItems(xs) == [i \in 1..Len(xs) |-> Eval(xs[i])]
+
+(* parentheses are transparent: `{(x)}` is the child `x` *)
+RECURSIVE Peel(_)
+Peel(e) == IF e.k = "wrap" /\ e.form = "paren" THEN Peel(e.e) ELSE e
 
 (* is the expression one of the "trivial" forms C11 exempts (bare identifier / literal)? *)
 IsTrivial(e) == e.k \in {"ident", "lit", "undefined"}
@@ -44,6 +53,7 @@ CanDiffer(e) ==
   CASE e.k \in {"lit", "undefined"} -> FALSE
     [] e.k = "arrlit" -> \E i \in 1..Len(e.xs) : CanDiffer(e.xs[i])
     [] e.k = "objlit" -> \E i \in 1..Len(e.es) : CanDiffer(e.es[i][2])
+    [] e.k = "objlitc" -> \E i \in 1..Len(e.ces) : CanDiffer(e.ces[i][1]) \/ CanDiffer(e.ces[i][3])   \* a key that can differ, too
     [] OTHER -> TRUE
 
 (* ---- attribute values, attributes, children, tags, elements ---- *)
